@@ -1130,7 +1130,8 @@ class ManifestRecursiveLoader:
                         continue
                     # only a regular file can be a Manifest (opening
                     # e.g. a named pipe would block forever)
-                    if not os.path.isfile(os.path.join(dirpath, mname)):
+                    if not stat.S_ISREG(
+                            os.stat(os.path.join(dirpath, mname)).st_mode):
                         continue
 
                     # we've just found ourselves a new Manifest,
